@@ -35,6 +35,37 @@ const (
 	E_ToI2PString = 39
 	E_NewI2PStringFromBytes = 40
 	E_StrIsValid = 41
+	E_ReadCertificate = 50
+	E_NewCertificateWithType = 51
+	E_NewKeyCertificate = 52
+	E_NewKeyCertificateWithTypes = 53
+	E_ReadKeysAndCert = 55
+	E_ReadKACElgEd25519 = 56
+	E_ReadKACX25519Ed25519 = 57
+	E_ReadDestination = 58
+	E_ReadRouterIdentity = 59
+	E_ReadSignature = 60
+	E_NewSignatureFromBytes = 61
+	E_ReadOfflineSignature = 62
+	E_ReadLease = 63
+	E_ReadLease2 = 64
+	E_ReadMapping = 65
+	E_GoMapToMapping = 66
+	E_ReadRouterAddress = 67
+	E_ReadRouterInfo = 68
+	E_ReadLeaseSet = 69
+	E_ReadLeaseSet2 = 70
+	E_ReadMetaLeaseSet = 71
+	E_ReadEncryptedLeaseSet = 72
+	E_KCSizes = 80
+	E_SigSize = 81
+	E_OffSizes = 82
+	E_LS2KeySizeKnown = 83
+	E_DestAllowed = 84
+	E_RIAllowed = 85
+	E_ReadSessionKey = 90
+	E_ReadSessionTag = 91
+	E_ReadECIESSessionTag = 92
 )
 
 var entryNames = map[int]string{
@@ -71,4 +102,35 @@ var entryNames = map[int]string{
 	39: "ToI2PString",
 	40: "NewI2PStringFromBytes",
 	41: "StrIsValid",
+	50: "ReadCertificate",
+	51: "NewCertificateWithType",
+	52: "NewKeyCertificate",
+	53: "NewKeyCertificateWithTypes",
+	55: "ReadKeysAndCert",
+	56: "ReadKACElgEd25519",
+	57: "ReadKACX25519Ed25519",
+	58: "ReadDestination",
+	59: "ReadRouterIdentity",
+	60: "ReadSignature",
+	61: "NewSignatureFromBytes",
+	62: "ReadOfflineSignature",
+	63: "ReadLease",
+	64: "ReadLease2",
+	65: "ReadMapping",
+	66: "GoMapToMapping",
+	67: "ReadRouterAddress",
+	68: "ReadRouterInfo",
+	69: "ReadLeaseSet",
+	70: "ReadLeaseSet2",
+	71: "ReadMetaLeaseSet",
+	72: "ReadEncryptedLeaseSet",
+	80: "KCSizes",
+	81: "SigSize",
+	82: "OffSizes",
+	83: "LS2KeySizeKnown",
+	84: "DestAllowed",
+	85: "RIAllowed",
+	90: "ReadSessionKey",
+	91: "ReadSessionTag",
+	92: "ReadECIESSessionTag",
 }
